@@ -119,13 +119,15 @@ func (g *vStoreWorld) project() map[string]interface{} {
 	return map[string]interface{}{"prim": pp, "psig": ps, "pexp": pe, "mirr": mp, "msig": ms, "mexp": me}
 }
 
-func (g *vStoreWorld) step(a map[string]interface{}) map[string]interface{} {
+func (g *vStoreWorld) step(a map[string]interface{}) (out map[string]interface{}) {
 	st := g.w.st
 	op, u := vStr(a, "op"), vStr(a, "user")
-	out := map[string]interface{}{"ok": true, "panic": false, "wrote": 0, "readback": 0, "refused": false, "authserved": false, "note": "", "primchanged": false}
+	out = map[string]interface{}{"ok": true, "panic": false, "wrote": 0, "readback": 0, "refused": false, "authserved": false, "note": "", "primchanged": false, "storeError": false}
 	defer func() {
 		if p := recover(); p != nil {
-			out["panic"] = true
+			// a storage operation of the harness itself failed (e.g. "database is locked" after a synchronisation
+			// that left its transaction open): the stores are not usable
+			out["storeError"] = true
 			out["note"] = fmt.Sprint(p)
 		}
 	}()
@@ -293,12 +295,31 @@ func runC15(t *testing.T, cases []map[string]interface{}, ev *vEvents) {
 		defer g.w.Close()
 		g.w.pw.pw["carol"] = "pw-carol"
 		evs := []map[string]interface{}{{"trace": i, "step": 0, "ev": "Reset", "args": map[string]interface{}{"op": "init"},
-			"out": map[string]interface{}{"panic": false}, "post": g.project()}}
+			"out": map[string]interface{}{"panic": false, "storeError": false}, "post": g.project()}}
 		steps, _ := c["steps"].([]interface{})
+		last := evs[0]["post"].(map[string]interface{})
+		broken := false
 		for k, s := range steps {
 			a := s.(map[string]interface{})
+			if broken {
+				break // nothing after an unusable store can be judged
+			}
 			o := g.step(a)
-			evs = append(evs, map[string]interface{}{"trace": i, "step": k + 1, "ev": vStr(a, "op"), "args": a, "out": o, "post": g.project()})
+			post := func() (p map[string]interface{}) {
+				defer func() {
+					if r := recover(); r != nil {
+						o["storeError"] = true
+						o["note"] = fmt.Sprint(o["note"], " projection: ", r)
+						p = last
+					}
+				}()
+				return g.project()
+			}()
+			last = post
+			if b, _ := o["storeError"].(bool); b {
+				broken = true
+			}
+			evs = append(evs, map[string]interface{}{"trace": i, "step": k + 1, "ev": vStr(a, "op"), "args": a, "out": o, "post": post})
 		}
 		out[i] = evs
 	})
